@@ -160,8 +160,6 @@ class ExpansionData:
             for idz, z in enumerate(tempGrid):
                 if b.p.zbottom <= z <= b.p.ztop:
                     tmpMapping.append(tempField[idz])
-                if z > b.p.ztop:
-                    break
 
             if len(tmpMapping) == 0:
                 raise ValueError(
